@@ -400,7 +400,7 @@ func ruleBackendMutationCallers(c *eng.Ctx) {
 			key := c.P.FnName(s.Fn) + "→Backend." + m
 			switch {
 			case pkg == pkgRepo:
-				why, ok := repoSites[c.P.FnName(root)]
+				why, ok := classifiedSite(c, root, repoSites)
 				c.Check(ok, rule, key, s.Call.Pos(), "backend %s in package repository at a classified site: %s", m, why)
 			case strings.HasPrefix(pkg, pkgBackend+"/mock") || strings.HasPrefix(pkg, pkgBackend+"/test"):
 				c.Ok(rule, key, s.Call.Pos(), "backend test-suite helper package")
